@@ -1138,6 +1138,12 @@ fn check_file_fault_in(case: &Case, ctx: &mut Ctx, datas: &[Vec<u8>], paths: &[S
 }
 
 /// fd 0 closed (std reports end of input) or a directory (read fails with EISDIR).
+/// `--take 0`: the limit is reached before the first byte. A run that never touches its
+/// input has met no input failure, so the rules that demand a failure do not apply.
+fn takes_nothing(case: &Case) -> bool {
+    case.opts.iter().any(|o| o[0] == "--take=0" || (o[0] == "--take" && o.get(1).map_or(false, |v| v == "0")))
+}
+
 fn check_stdin_preset(case: &Case, ctx: &mut Ctx) -> Option<Violation> {
     let kind = if case.param("stdin") == 1 { StdinKind::Closed } else { StdinKind::Directory };
     let cfg = Cfg::plain();
@@ -1174,6 +1180,10 @@ fn check_stdin_preset(case: &Case, ctx: &mut Ctx) -> Option<Violation> {
             }
         }
         _ => {
+            if takes_nothing(case) && r.status == Some(0) && r.out == e.out && r.err == e.err {
+                ctx.stats.probe("--take 0: the unreadable stdin was never needed");
+                return None;
+            }
             if r.status == Some(0) {
                 return viol("C20.exit-fail", format!("stdin is a directory (read fails) but the exit status is 0: {}", r.describe()));
             }
@@ -1254,7 +1264,8 @@ fn check_missing_file(case: &Case, ctx: &mut Ctx) -> Option<Violation> {
     let real = paths[0].clone();
     let missing = format!("{}.does-not-exist", paths[1]);
     let stops_early = has_opt(&case.opts, "--take") || policy_of(&case.opts) == Policy::Panic;
-    if case.param("where") == 1 && stops_early {
+    // (--take 0 needs no input at all: a run that never looks at its arguments has not failed)
+    if (case.param("where") == 1 && stops_early) || takes_nothing(case) {
         ctx.stats.invalid = true;
         return None;
     }
